@@ -430,6 +430,16 @@ fn plain_ops<L: HLabel>(abs: &Abs, labels: &[L], rng: &mut Rng, repeat_attacks: 
 /// attacks (and is observed there, see `apply_ops`) two updates before it is complete.
 fn detour<L: HLabel>(abs: &Abs, labels: &[L], rng: &mut Rng, ops: &mut Vec<Op<L>>) {
     let real: std::collections::BTreeSet<(usize, usize)> = abs.att.iter().copied().collect();
+    // half of the detours: an argument attacks itself for a while (a self-attack declared and withdrawn)
+    if abs.n > 0 && rng.pct(50) {
+        let free: Vec<usize> = (0..abs.n).filter(|a| !real.contains(&(*a, *a))).collect();
+        if !free.is_empty() {
+            let a = *rng.pick(&free);
+            ops.push(Op::AddAtt(labels[a].clone(), labels[a].clone()));
+            ops.push(Op::DelAtt(labels[a].clone(), labels[a].clone()));
+            return;
+        }
+    }
     let cands: Vec<(usize, usize)> = real.iter().copied().filter(|(a, b)| a != b && !real.contains(&(*b, *a))).collect();
     if cands.is_empty() {
         return;
